@@ -424,10 +424,18 @@ func scalarReflectFromGo(schema *schema_j5pb.Field, value interface{}) (protoref
 	}
 }
 
+// maxDecimalExponent bounds the power of ten a decimal literal may carry. The
+// value is stored fully expanded, so "1e100000000" - eleven bytes of input -
+// would otherwise take minutes and gigabytes to write out.
+const maxDecimalExponent = 1 << 17
+
 func decimalFromString(val string) (protoreflect.Value, error) {
 	d, err := decimal.NewFromString(val)
 	if err != nil {
 		return protoreflect.Value{}, err
+	}
+	if exp := d.Exponent(); exp > maxDecimalExponent || exp < -maxDecimalExponent {
+		return protoreflect.Value{}, fmt.Errorf("decimal exponent %d is out of range", exp)
 	}
 	msg := decimal_j5t.FromShop(d)
 	return protoreflect.ValueOfMessage(msg.ProtoReflect()), nil
